@@ -254,7 +254,14 @@ def uses_index(body):
     return idx
 
 
-def forward_sinks(body, local, follow_refs=True, max_nodes=500):
+PASS_THROUGH = {
+    'std::ops::Try::branch', 'std::ops::FromResidual::from_residual', 'std::convert::From::from',
+    'std::convert::Into::into', 'std::result::Result::map', 'std::option::Option::map',
+    'std::option::Option::ok_or',
+}
+
+
+def forward_sinks(body, local, follow_refs=True, max_nodes=500, through=()):
     """Where does the value held in `local` end up?  Follows moves/copies/casts into other locals,
     (optionally) borrows, and field extraction.  Returns records:
        ('call', Term, argidx, via_ref)    passed to a call
@@ -302,6 +309,11 @@ def forward_sinks(body, local, follow_refs=True, max_nodes=500):
                     work.append((node.place.local, True))
             elif kind == 'callarg':
                 out.append(('call', node, oi, via))
+                if through and node.callee is not None and node.callee.path in through and not via:
+                    if node.dest.is_local():
+                        work.append((node.dest.local, via))
+                    elif node.dest.local == 0:
+                        out.append(('ret', None, 0, via))
             elif kind == 'drop':
                 out.append(('drop', node, 0, via))
             elif kind in ('switch', 'discr', 'callfunc', 'assert'):
